@@ -90,6 +90,10 @@ VEC = {
     "Twist2.Prismatic": lambda a: Twist2.Prismatic(a),
     "Plucker": lambda v: Plucker(v), "Plucker.PQ": lambda p, q: Plucker.PQ(p, q),
     "Plucker.PointDir": lambda p, d: Plucker.PointDir(p, d),
+    "Plucker.contains": lambda x: Plucker.PQ([1, 2, 3], [4, -1, 2]).contains(x),
+    "Plucker.closest": lambda x: tuple(Plucker.PQ([1, 2, 3], [4, -1, 2]).closest(x)),
+    "Plucker.intersect_plane": lambda pl: tuple(Plucker.PQ([1, 2, 3], [4, -1, 2]).intersect_plane(pl)),
+    "Plucker.intersect_volume": lambda bd: tuple(Plucker.PQ([0.5, 0.2, 0.1], [2.0, 1.0, 1.5]).intersect_volume(bd)),
     "SpatialVelocity": lambda v: SpatialVelocity(v), "SpatialForce": lambda v: SpatialForce(v),
     "SE3*": lambda v: SE3(1, 2, 3) * SE3.Rx(0.3) * v, "SO3*": lambda v: SO3.Rx(0.3) * v,
     "SE2*": lambda v: SE2(1, 2, 0.3) * v, "SO2*": lambda v: SO2(0.3) * v,
@@ -203,16 +207,38 @@ ORDER = {
     "UnitQuaternion.rpy": lambda o: UnitQuaternion(SO3(R3)).rpy(order=o),
 }
 
-SCALARS = {
-    "transl": (lambda: b.transl(1.5, -2, 3), lambda: b.transl([1.5, -2, 3])),
-    "transl2": (lambda: b.transl2(1.5, -2), lambda: b.transl2([1.5, -2])),
-    "rpy2r": (lambda: b.rpy2r(0.1, 0.2, 0.3), lambda: b.rpy2r([0.1, 0.2, 0.3])),
-    "rpy2tr": (lambda: b.rpy2tr(0.1, 0.2, 0.3), lambda: b.rpy2tr([0.1, 0.2, 0.3])),
-    "eul2r": (lambda: b.eul2r(0.1, 0.2, 0.3), lambda: b.eul2r([0.1, 0.2, 0.3])),
-    "eul2tr": (lambda: b.eul2tr(0.1, 0.2, 0.3), lambda: b.eul2tr([0.1, 0.2, 0.3])),
-    "SE2": (lambda: SE2(1.5, -2, 0.3), lambda: SE2([1.5, -2, 0.3])),
-    "SE3": (lambda: SE3(1.5, -2, 3), lambda: SE3([1.5, -2, 3])),
-}
+SCALARS = {"transl", "transl2", "rpy2r", "rpy2tr", "eul2r", "eul2tr", "SE2", "SE2(x,y)", "SE3"}
+
+
+def _st(st):
+    """converter for the separate scalars of type st; integer types use whole numbers"""
+    conv = {"float": float, "int": int, "numpy.float64": np.float64, "numpy.int64": np.int64, "numpy.float32": np.float32,
+            "numpy.int32": np.int32}[st]
+    return conv, ("int" in st)
+
+
+def scalars(name, st):
+    """(separate-scalar call, packed call) for entry `name` with scalars of type st"""
+    conv, whole = _st(st)
+    vals = [2, -3, 1] if whole else [1.5, -2.0, 0.25]
+    x, y, z = [conv(v) for v in vals]
+    pk = [float(v) if not whole else int(v) for v in vals]
+    if st == "numpy.float32":
+        pk = [float(np.float32(v)) for v in vals]
+    table = {
+        "transl": (lambda: b.transl(x, y, z), lambda: b.transl(pk)),
+        "transl2": (lambda: b.transl2(x, y), lambda: b.transl2(pk[:2])),
+        "rpy2r": (lambda: b.rpy2r(x, y, z), lambda: b.rpy2r(pk)),
+        "rpy2tr": (lambda: b.rpy2tr(x, y, z), lambda: b.rpy2tr(pk)),
+        "eul2r": (lambda: b.eul2r(x, y, z), lambda: b.eul2r(pk)),
+        "eul2tr": (lambda: b.eul2tr(x, y, z), lambda: b.eul2tr(pk)),
+        "SE2": (lambda: SE2(x, y, z), lambda: SE2(pk)),
+        "SE2(x,y)": (lambda: SE2(x, y), lambda: SE2(pk[:2])),
+        "SE3": (lambda: SE3(x, y, z), lambda: SE3(pk)),
+    }
+    return table[name]
+
+
 
 
 def _mats(kind="generic"):
